@@ -37,7 +37,7 @@ def match_finding(f, prop, v):
 RECORDED = {"C01": [("Trace_C01", ["C01."])], "C06": [("Trace_C01", ["C06."]), ("Trace_Acl", ["C06."])], "C03": [("Trace_Shadow", ["C03."])],
             "C11": [("Trace_Shadow", ["C11."]), ("Trace_Acl", ["C11."])], "C05": [("Trace_C05", ["C05."])], "C08": [("Trace_C08", ["C08."])],
             "C02": [("Trace_Acl", ["C02."])], "C04": [("Trace_Acl", ["C04."])], "C15": [("Trace_Acl", ["C15."])], "C16": [("Trace_Acl", ["C16."])],
-            "C19": [("Trace_Acl", ["C19."])],
+            "C19": [("Trace_Acl", ["C19."])], "C13": [("Trace_C13", ["C13."])], "C10": [("Trace_C10", ["C10."])], "C14": [("Trace_C14", ["C14."])], "C18": [("Trace_C18", ["C18."])],
             "C17": [("Trace_Acl", ["C02.", "C04.", "C06.", "C10.", "C11.", "C15.", "C16.", "C17.", "C19."])]}
 
 
